@@ -4,9 +4,9 @@ func init() {
 	addProperty(&Property{
 		ID:         "C18",
 		Title:      "Every enumerated keyword maps back to the value that printed it",
-		Decided:    "for all declared values of all enum types (exhaustive): String table defines a keyword, FromString maps it back to the same value, keywords are injective (ENUM-TAB); the keyword is a terminal the llir/ll lexer can produce (ENUM-LEX); flag-set printers enumerate exactly the single-bit members between First and Last (ENUM-FLAGS); each FromString is applied to the matching AST keyword node (ENUM-USE).",
+		Decided:    "for all declared values of all enum types (exhaustive): String table defines a keyword, FromString maps it back to the same value, keywords are injective (ENUM-TAB); the keyword is a terminal the llir/ll lexer can produce (ENUM-LEX); flag-set printers enumerate exactly the single-bit members between First and Last (ENUM-FLAGS); each FromString is applied to the matching AST keyword node (ENUM-USE); flag-set printers test the empty set first, on the unmodified set (ENUM-FLAGS); no function that converts between keywords and enum values keeps process-level state such as a shared keyword cache (DET-2 restricted to functions with an enum type in their signature).",
 		NotDecided: "all subsets of the flag types beyond the structure of the set printers; acceptance of each keyword by LLVM itself.",
-		Rules:      []RuleUse{{Rule: "ENUM-TAB"}, {Rule: "ENUM-LEX"}, {Rule: "ENUM-FLAGS"}, {Rule: "ENUM-USE"}},
+		Rules:      []RuleUse{{Rule: "ENUM-TAB"}, {Rule: "ENUM-LEX"}, {Rule: "ENUM-FLAGS"}, {Rule: "ENUM-USE"}, {Rule: "DET-2", Filter: tag("enum"), Floor: 1}},
 	})
 	addProperty(&Property{
 		ID:         "C19",
@@ -18,16 +18,17 @@ func init() {
 	addProperty(&Property{
 		ID:         "C01",
 		Title:      "Parse then print preserves the meaning of every accepted module",
-		Decided:    "over every construct of the translator and printers: each grammar alternative is dispatched or rejected with an error, never a panic or silent skip (EXH, SIB); scaffold and fill translators agree on the IR type per AST node (PAIR); every syntax accessor of every handled AST node is read and used (ACC) and lands in the like-named IR field (FLOW); every IR field the parser allocates is filled (FLD-W) and every IR field is read by its printer (FLD-P), in grammar order (ORD), under the right opcode keyword (OPC); errors of the translator's own functions are returned, never dropped or turned into panics (ERR), and never accompanied by a module (NILMOD).",
+		Decided:    "over every construct of the translator and printers: each grammar alternative is dispatched or rejected with an error, never a panic or silent skip (EXH, SIB); scaffold and fill translators agree on the IR type per AST node (PAIR); every syntax accessor of every handled AST node is read and used (ACC) and lands in the like-named IR field (FLOW); every IR field the parser allocates is filled (FLD-W) and every IR field is read by its printer (FLD-P), in grammar order (ORD), under the right opcode keyword (OPC); errors of the translator's own functions are returned, never dropped or turned into panics (ERR), and never accompanied by a module (NILMOD); no success return of a translator precedes an unconditional store to a field of the object being filled (EARLY-RET); a name the printer omits as default is the default the translator substitutes (ELIDE).",
 		NotDecided: "that the printed text means the same to LLVM at the level of values (literal formatting is C09/C10/C11); crashes guarded by data conditions (e.g. `i1 -1`); the alias-typedef defect F2 (found by reading, no rule).",
-		Rules:      []RuleUse{{Rule: "EXH"}, {Rule: "SIB"}, {Rule: "PAIR"}, {Rule: "ACC"}, {Rule: "FLOW"}, {Rule: "FLD-W"}, {Rule: "FLD-P"}, {Rule: "ORD"}, {Rule: "OPC"}, {Rule: "ERR"}, {Rule: "NILMOD"}},
+		Rules:      []RuleUse{{Rule: "EXH"}, {Rule: "SIB"}, {Rule: "PAIR"}, {Rule: "ACC"}, {Rule: "FLOW"}, {Rule: "FLD-W"}, {Rule: "FLD-P"}, {Rule: "ORD"}, {Rule: "OPC"}, {Rule: "ERR"}, {Rule: "NILMOD"}, {Rule: "EARLY-RET"}, {Rule: "ELIDE"}},
 	})
 	addProperty(&Property{
 		ID:         "C03",
 		Title:      "IR built through the constructors prints to valid, faithful LLVM assembly",
-		Decided:    "every constructor parameter is stored, same-typed parameters in the like-named field (CTOR-1); lazily cached result types are computed in the constructor (CTOR-2); every builder method forwards its parameters in order to the like-named constructor, stores the result once, sets Parent and returns it (CTOR-3); every field is read by its printer (FLD-P) in grammar order (ORD) under the right opcode (OPC).",
+		Decided:    "every constructor parameter is stored, same-typed parameters in the like-named field (CTOR-1); lazily cached result types are computed in the constructor (CTOR-2); every builder method forwards its parameters in order to the like-named constructor, stores the result once, sets Parent and returns it (CTOR-3); every field is read by its printer (FLD-P) in grammar order (ORD) under the right opcode (OPC); the getelementptr constructors compute their result type through the shared walk with the vector length of every index taken from the index type (GEP-WALK, GEP-VLEN on ir and ir/constant); unnamed values are numbered in the order they are printed (NUM-ORDER).",
 		NotDecided: "acceptance of the text by LLVM, execution results, structural identity after re-parsing, and that a constructor's own type check never rejects a well-typed operand (the panicking checks in New* are not classified).",
-		Rules:      []RuleUse{{Rule: "CTOR-1"}, {Rule: "CTOR-2"}, {Rule: "CTOR-3"}, {Rule: "FLD-P"}, {Rule: "ORD"}, {Rule: "OPC"}},
+		Rules:      []RuleUse{{Rule: "CTOR-1"}, {Rule: "CTOR-2"}, {Rule: "CTOR-3"}, {Rule: "FLD-P"}, {Rule: "ORD"}, {Rule: "OPC"},
+			{Rule: "GEP-WALK", Filter: keyPrefix("ir.", "ir/constant."), Floor: 4}, {Rule: "GEP-VLEN", Filter: keyPrefix("ir.", "ir/constant."), Floor: 2}, {Rule: "NUM-ORDER"}},
 	})
 	addProperty(&Property{
 		ID:         "C15",
@@ -41,7 +42,7 @@ func init() {
 		Title:      "Type equality is a structural equivalence matching LLVM type identity",
 		Decided:    "each kind's Equal reads every identity field on both sides (EQ-1), guards on the argument's kind and returns false otherwise (EQ-2, necessary for symmetry), and the struct kind cuts recursion at type names before descending into fields (EQ-3, necessary for termination); every field of every type kind is printed (FLD-P on ir/types) and read back (ACC/FLOW on the type translators), which equality through print/parse relies on.",
 		NotDecided: "transitivity as such; that the pointer kind's comparison of printed forms coincides with structure for all element types; preservation by print/parse beyond field coverage.",
-		Rules:      []RuleUse{{Rule: "EQ-1"}, {Rule: "EQ-2"}, {Rule: "EQ-3"}, {Rule: "FLD-P", Filter: tag("types"), Floor: 15}, {Rule: "FLOW", Filter: tag("types"), Floor: 10}},
+		Rules:      []RuleUse{{Rule: "EQ-1"}, {Rule: "EQ-2"}, {Rule: "EQ-3"}, {Rule: "FLD-P", Filter: tag("types"), Floor: 15}, {Rule: "FLOW", Filter: tag("types"), Floor: 10}, {Rule: "EARLY-RET", Filter: tag("types"), Floor: 5}},
 	})
 	addProperty(&Property{
 		ID:         "C05",
@@ -79,17 +80,17 @@ func init() {
 		Title:      "Definitions are printed in a canonical, input-order-independent order",
 		Decided:    "every list the printer emits is filled from keys sorted by the stated comparator (natural order for types, comdats, named metadata; ascending numeric for attribute groups and metadata) or from the recorded textual order of globals, and WriteTo emits each list by an in-order range (ORD-SORT); every map range is collect-then-sort or commutative (DET-1).",
 		NotDecided: "that natsort.Less is a strict total order comparing digit runs numerically — an order-axiom statement over all strings that no structural rule establishes; the property's first sentence is therefore NOT decided.",
-		Rules:      []RuleUse{{Rule: "ORD-SORT"}, {Rule: "DET-1"}},
+		Rules:      []RuleUse{{Rule: "ORD-SORT"}, {Rule: "DET-1"}, {Rule: "NAT-WIDTH"}},
 	})
 	addProperty(&Property{
 		ID:         "C17",
 		Title:      "Metadata IDs are unique and references share node identity",
-		Decided:    "all 29 node types print numbered nodes by ID and inline nodes in place (MD-IDENT); every node the parser allocates is either inline (ID -1) or gets its definition's ID (MD-INLINE); fill translators fill the scaffold object that references resolve to and allocate only for inline nodes (MD-SCAF, PAIR); !N references resolve through one checked lookup (LK-2) and duplicate !N definitions are rejected (DUP); named metadata is merged by append in textual order (MD-MERGE); the printer assigns only unused IDs, to unassigned nodes, before writing (MD-ASSIGN, RACE-2); per debug-info field: grammar key ↔ printed field ↔ translator agree (MD-KEY) and the dispatch/coverage rules hold on the metadata translators and printers (EXH, ACC, FLOW, FLD-W, FLD-P restricted to metadata).",
+		Decided:    "all 29 node types print numbered nodes by ID and inline nodes in place (MD-IDENT); every node the parser allocates is either inline (ID -1) or gets its definition's ID (MD-INLINE); fill translators fill the scaffold object that references resolve to and allocate only for inline nodes (MD-SCAF, PAIR); !N references resolve through one checked lookup (LK-2) and duplicate !N definitions are rejected (DUP); named metadata is merged by append in textual order (MD-MERGE); the printer records every explicit ID before it hands out the first new one, assigns only unused IDs, to unassigned nodes, before writing (MD-ASSIGN; RACE-2 md-tagged: SetID only on nodes whose ID differs); per debug-info field: grammar key ↔ printed field ↔ translator agree (MD-KEY) and the dispatch/coverage rules hold on the metadata translators and printers (EXH, ACC, FLOW, FLD-W, FLD-P restricted to metadata).",
 		NotDecided: "the arithmetic of the ID counter (smallest unused numbers as such); identity through paths the rules do not model (nodes copied by value).",
 		Rules: []RuleUse{{Rule: "MD-IDENT"}, {Rule: "MD-INLINE"}, {Rule: "MD-SCAF"}, {Rule: "MD-KEY"}, {Rule: "MD-MERGE"}, {Rule: "MD-ASSIGN"},
 			{Rule: "PAIR", Filter: tag("md"), Floor: 25}, {Rule: "LK-2", Filter: tag("md"), Floor: 1}, {Rule: "DUP", Filter: tag("md"), Floor: 1},
 			{Rule: "EXH", Filter: tag("md"), Floor: 200}, {Rule: "ACC", Filter: tag("md"), Floor: 120}, {Rule: "FLOW", Filter: tag("md"), Floor: 150},
-			{Rule: "FLD-W", Filter: tag("md"), Floor: 200}, {Rule: "FLD-P", Filter: tag("md"), Floor: 200}},
+			{Rule: "FLD-W", Filter: tag("md"), Floor: 200}, {Rule: "FLD-P", Filter: tag("md"), Floor: 200}, {Rule: "RACE-2", Filter: keyHas("MetadataIDs"), Floor: 1}},
 	})
 	addProperty(&Property{
 		ID:         "C04",
@@ -124,30 +125,30 @@ func init() {
 	addProperty(&Property{
 		ID:         "C11",
 		Title:      "Names and strings are escaped losslessly and unambiguously",
-		Decided:    "one numeric-name predicate at every site that decides ID vs name, in encoders, decoders and identifier constructors (ENC-NUM); no raw string field reaches a printer's output without an LLVM escaper (ENC-STR); no undecoded token text reaches the IR (ENC-TEXT); per token class the sigil written equals the sigil stripped, and every encoder is applied only to fields of its own class (ENC-PAIR); decoders return the denoted bytes without formatting quote characters into names (ENC-RAW).",
-		NotDecided: "losslessness and injectivity of the escaping functions over all byte strings (Escape/Unescape are loops over runtime bytes; no structural rule establishes that they are inverse); LLVM's own reading of the tokens.",
-		Rules:      []RuleUse{{Rule: "ENC-NUM"}, {Rule: "ENC-STR"}, {Rule: "ENC-TEXT"}, {Rule: "ENC-PAIR"}, {Rule: "ENC-RAW"}},
+		Decided:    "one numeric-name predicate at every site that decides ID vs name, in encoders, decoders and identifier constructors (ENC-NUM); no raw string field reaches a printer's output without an LLVM escaper (ENC-STR); no undecoded token text reaches the IR (ENC-TEXT); per token class the sigil written equals the sigil stripped, and every encoder is applied only to fields of its own class (ENC-PAIR); decoders return the denoted bytes without formatting quote characters into names (ENC-RAW); evaluated over all 256 byte values, every byte class that is copied verbatim between quotes excludes the quote and the backslash, and every hand-made quoting is applied to escaper output or under a guard whose accepted bytes are a subset of the escaper's verbatim set (ENC-SET); in Unescape only bytes of the source are ever examined as escape syntax, never a decoded byte (ENC-UNESC).",
+		NotDecided: "losslessness and injectivity of the escaping functions over all byte strings (Escape/Unescape are loops over runtime bytes; beyond the byte classes and the source-byte discipline no structural rule establishes that they are inverse); LLVM's own reading of the tokens.",
+		Rules:      []RuleUse{{Rule: "ENC-NUM"}, {Rule: "ENC-STR"}, {Rule: "ENC-TEXT"}, {Rule: "ENC-PAIR"}, {Rule: "ENC-RAW"}, {Rule: "ENC-SET"}, {Rule: "ENC-UNESC"}},
 	})
 	addProperty(&Property{
 		ID:         "C09",
 		Title:      "Integer literals keep their exact value through print and parse",
-		Decided:    "ONLY reader/writer table agreement and totality: every spelling class the integer printer can emit (true/false, u0x + base-16 digits, decimal) is accepted by the reader under the same literal and base (LIT-INT-TAB); no value switch of the integer printer has a panicking default over runtime data (VSW); the parser reaches the reader only through the integer-literal token text (ENC-TEXT).",
+		Decided:    "ONLY reader/writer table agreement and totality: every spelling class the integer printer can emit (true/false, u0x + base-16 digits, decimal) is accepted by the reader under the same literal and base (LIT-INT-TAB); no value switch of the integer printer has a panicking default over runtime data (VSW); no spelling is produced from a 64-bit narrowing of the arbitrary-precision value (LIT-INT-TAB); the translator hands the unmodified token text to constant.NewIntFromString, and any other decoding of it is a plain base-10 strconv parse (LIT-READER); literal reading and printing keep no process-level state (DET-2 restricted to ir/constant and mewmew/float).",
 		NotDecided: "value preservation for any width or value: the entropy heuristic that chooses hexadecimal, two's-complement decoding of s0x by type width, and big-integer formatting are runtime computations that no structural rule bounds. The behavioural core of the property is NOT decided.",
-		Rules:      []RuleUse{{Rule: "LIT-INT-TAB"}, {Rule: "VSW"}},
+		Rules:      []RuleUse{{Rule: "LIT-INT-TAB"}, {Rule: "VSW"}, {Rule: "LIT-READER"}, {Rule: "DET-2", Filter: tag("lit"), Floor: 1}},
 	})
 	addProperty(&Property{
 		ID:         "C10",
 		Title:      "Floating-point literals keep their exact bit pattern",
-		Decided:    "ONLY reader/writer table agreement: per kind, hex prefix letter and mewmew/float codec are the same in printer and reader, the printer's kind switch covers all declared kinds, and the kinds that can fall through to a decimal spelling are exactly those the reader's decimal branch handles (LIT-FP-TAB); kind switches with panicking defaults are total or exempt with the LLVM rule that makes the missing kinds unreachable (VSW).",
+		Decided:    "ONLY reader/writer table agreement: per kind, hex prefix letter and mewmew/float codec are the same in printer and reader, the printer's kind switch covers all declared kinds, and the kinds that can fall through to a decimal spelling are exactly those the reader's decimal branch handles (LIT-FP-TAB); kind switches with panicking defaults are total or exempt with the LLVM rule that makes the missing kinds unreachable (VSW); the 16-digit form of half/float/double is decoded as a double bit pattern with math.Float64frombits, the reader's rounding precision per kind is the same at every site and equals the IEEE significand width, and each kind's decimal spelling is guarded by the exactness test of its own width (LIT-FP-TAB); the translator hands the unmodified token text to constant.NewFloatFromString (LIT-READER); literal reading and printing keep no process-level state, e.g. an exactness cache keyed without the kind (DET-2 restricted to ir/constant and mewmew/float).",
 		NotDecided: "any bit pattern: exactness tests, rounding precisions, NaN payloads, signed zeros and subnormals are numerical questions outside this technique. The behavioural core of the property is NOT decided.",
-		Rules:      []RuleUse{{Rule: "LIT-FP-TAB"}, {Rule: "VSW"}},
+		Rules:      []RuleUse{{Rule: "LIT-FP-TAB"}, {Rule: "VSW"}, {Rule: "LIT-READER"}, {Rule: "DET-2", Filter: tag("lit"), Floor: 1}},
 	})
 	addProperty(&Property{
 		ID:         "C02",
 		Title:      "Printed output is a fixpoint of parse and print",
-		Decided:    "only conditions necessary for idempotence itself (dropping a field is idempotent, so coverage rules are deliberately not attached): output cannot depend on map iteration order (DET-1); every keyword, literal spelling class and identifier spelling the printer can choose is read back into the same class/value table entry (ENUM-TAB, ENUM-LEX, LIT-INT-TAB, LIT-FP-TAB, ENC-NUM, ENC-PAIR, MD-KEY); the numbering the printer emits is the numbering the parser assigns on re-read (NUM-SHAPE, NUM-PREFIX, NUM-AUTH); every emitted list is already in the order a re-parse would put it in (ORD-SORT).",
+		Decided:    "only conditions necessary for idempotence itself (dropping a field is idempotent, so coverage rules are deliberately not attached): output cannot depend on map iteration order (DET-1); every keyword, literal spelling class and identifier spelling the printer can choose is read back into the same class/value table entry (ENUM-TAB, ENUM-LEX, LIT-INT-TAB, LIT-FP-TAB, ENC-NUM, ENC-PAIR, MD-KEY); the numbering the printer emits is the numbering the parser assigns on re-read (NUM-SHAPE, NUM-PREFIX, NUM-AUTH); every emitted list is already in the order a re-parse would put it in (ORD-SORT); a name the printer omits as default is exactly the default the translator substitutes (ELIDE); a merge that removes duplicates removes them across all merged definitions, so that merging its own output changes nothing (DEDUP-SCOPE); literal token text is decoded by the one reader the printer's spellings are matched against (LIT-READER).",
 		NotDecided: "byte equality of the two texts; structural identity of the two parsed modules; acceptance of the printed text by the generated LALR parser beyond keyword/terminal membership.",
 		Rules: []RuleUse{{Rule: "DET-1"}, {Rule: "ENUM-TAB"}, {Rule: "ENUM-LEX"}, {Rule: "LIT-INT-TAB"}, {Rule: "LIT-FP-TAB"}, {Rule: "ENC-NUM"}, {Rule: "ENC-PAIR"}, {Rule: "MD-KEY"},
-			{Rule: "NUM-SHAPE"}, {Rule: "NUM-PREFIX"}, {Rule: "NUM-AUTH"}, {Rule: "ORD-SORT"}},
+			{Rule: "NUM-SHAPE"}, {Rule: "NUM-PREFIX"}, {Rule: "NUM-AUTH"}, {Rule: "ORD-SORT"}, {Rule: "ELIDE"}, {Rule: "DEDUP-SCOPE"}, {Rule: "LIT-READER"}},
 	})
 }
